@@ -147,10 +147,16 @@ thread_local! {
 }
 
 pub fn exec(cx: &mut Ctx, c: &Case) {
-    let m = message(c.len, c.pat, c.mseed);
+    let m0 = message(c.len, c.pat, c.mseed);
+    // the implementation reads the message from a seeded byte offset inside a larger buffer
+    // (a payload behind a header), the reference from the ordinary copy
+    let off = (c.mseed >> 3) as usize % 16;
+    let mut store = vec![0xEEu8; c.len + 16];
+    store[off..off + c.len].copy_from_slice(&m0);
+    let m = &store[off..off + c.len];
     let sigp = format!("{}|{}|{}", cx.prop, c.id.name(), api::profile());
     api::force_backend(c.fb);
-    let got = guarded(|| c.id.oneshot(&m));
+    let got = guarded(|| c.id.oneshot(m));
     api::force_backend(0);
     cx.log.eval(1);
     let got = match got {
@@ -160,7 +166,7 @@ pub fn exec(cx: &mut Ctx, c: &Case) {
             return;
         }
     };
-    let exp = c.id.reference(&m);
+    let exp = c.id.reference(&m0);
     if let Some(i) = first_diff(&got, &exp) {
         cx.log.violation(
             &format!("{}|wrong-digest", sigp),
@@ -239,7 +245,7 @@ pub fn exec(cx: &mut Ctx, c: &Case) {
                 let _ = h.finalize_reset();
                 LONG_BEFORE.with(|n| n.set(n.get() + 1));
             }
-            h.update(&m);
+            h.update(m);
             h.finalize_reset()
         })
     });
@@ -351,6 +357,8 @@ pub fn run(cx: &mut Ctx) {
         let id = *rng.pick(&menu);
         let bs = id.block_size() as u64;
         let len = match if cfg!(miri) { 0 } else { rng.below(10) } {
+            // now and then a message of many KiB in one piece (whole pages, odd sizes)
+            0 if rng.below(8) == 0 => 4096 * rng.range(1, 33) + [0u64, 0, 1, 63, 4095][rng.below(5) as usize],
             0..=3 => rng.below(if cfg!(miri) { bs + 9 } else { 3 * bs + 9 }),
             4..=6 => bs * rng.range(1, 40) + rng.below(3) - 1 + rng.below(2) * (bs - 9),
             7 if id.fam == Fam::Groestl && !cfg!(miri) => 255 * bs + rng.below(3 * bs), // 255/256/257 blocks incl. padding
